@@ -578,7 +578,11 @@ inline verdict_t check_object(object_t& o, const material_t& m, ctx_t& ctx, coun
                 cnt.nonfinite++;
                 ctx.label("nonfinite/" + o.family);
                 break;
-            case deriv_result_t::borderline: borderline = true; break;
+            case deriv_result_t::borderline:
+                borderline = true;
+                ctx.label("deriv-borderline/" + flav);
+                ctx.maximum("derivative borderline ratio " + o.family, r.ratio);
+                break;
             case deriv_result_t::failed: return verdict_t::violation(o.where + "/derivative", r.msg);
             }
         }
@@ -624,6 +628,7 @@ inline verdict_t check_object(object_t& o, const material_t& m, ctx_t& ctx, coun
             const auto c = climb(o, o.mu, radius, starts, m.steps, true, cnt);
             if (c.any)
             {
+                ctx.maximum("strong-convexity excess on weight-block directions (tol units) " + o.family, c.best);
                 if (c.best > 10.0)
                 {
                     return report(c, o.mu, "/strong-convexity/weight-block");
